@@ -241,7 +241,9 @@ def run_api(case):
         warnings.simplefilter("ignore")
         for k in range(case["nconn"]):
             opts = {"logger_status": rng.random() < 0.5, "allow_multiple": rng.random() < 0.5,
-                    "name": rng.choice(["", f"nm{k}"]), "module_id": rng.choice([0, 0, 20 + k])}
+                    "name": rng.choice(["", f"nm{k}"]), "module_id": rng.choice([0, 0, 20 + k, 20 + k, [4, 5][k % 2]])}
+            if opts["module_id"] in (4, 5) and any(o0["module_id"] == opts["module_id"] for _c, _cm, o0 in held):
+                opts["module_id"] = 20 + k     # ids listed in the module-id table (4, 5) are used once per case
             daemon = rng.random() < 0.5
             entry = rng.choice(["connect", "connect_kw", "context"])
             if any(v for k2, v in opts.items()) or daemon:
@@ -317,6 +319,12 @@ def run_api(case):
             C["client_info_compared"] = C.get("client_info_compared", 0) + 1
             want = {"is_logger": int(opts["logger_status"]), "is_unique": int(not opts["allow_multiple"]), "name": opts["name"]}
             have = {k2: x[k2] for k2 in want}
+            if not opts["name"] and opts["module_id"] in (4, 5):
+                # no name given: the client may fill in the name its module-id table lists for that id
+                from pyrtma.context import get_context
+                table = {v: k2 for k2, v in get_context().MID.items()}
+                if have["name"] == table.get(opts["module_id"]):
+                    want["name"] = have["name"]
             if opts["module_id"]:
                 want["mod_id"], have["mod_id"] = opts["module_id"], x["mod_id"]
             else:
